@@ -62,7 +62,7 @@ def run(ctx):
         ctx.inst("C04.R1", "read-position=%s" % pos, pos in reads and pos in collects,
                  "evaluator reads the environment by an AST name here: %s; collect_free_variables collects here: %s" % (pos in reads, pos in collects), H.loc(hev["body"]))
     # recursion coverage
-    m = sorted(H.matches_on(hcf["body"], "ast::Expr"), key=lambda m_: -len(m_["arms"]))
+    m = [x_ for x_ in [H.main_match(hcf["body"], "ast::Expr")] if x_ is not None]
     if not m:
         raise CheckerError("collect_free_variables has no match on Expr")
     handled = set()
@@ -331,12 +331,12 @@ def special_names(ctx, rid, core):
     """what the evaluator resolves before the environment lookup is exactly what the capture analysis skips (shared with C05)"""
     hev = core.hir_fn(EVAL)
     hcf = core.hir_fn(CFV)
-    m = sorted(H.matches_on(hcf["body"], "ast::Expr"), key=lambda m_: -len(m_["arms"]))
+    m = [x_ for x_ in [H.main_match(hcf["body"], "ast::Expr")] if x_ is not None]
     if not m:
         raise CheckerError("collect_free_variables has no match on Expr")
     # special names: what the evaluator resolves before the environment lookup is exactly what the capture analysis skips
     ev_arms = {}
-    mev = sorted(H.matches_on(hev["body"], "ast::Expr"), key=lambda m_: -len(m_["arms"]))
+    mev = [x_ for x_ in [H.main_match(hev["body"], "ast::Expr")] if x_ is not None]
     for a in (mev[0]["arms"] if mev else []):
         for v in H.pat_variants(a["pat"]):
             ev_arms[H.last(v)] = a
